@@ -116,10 +116,19 @@ func (s *masterSnapshoter) Save(writer io.Writer) error {
 
 // SnapshotRestore implements raft.FSM.
 func (h *StateHandler) SnapshotRestore(reader io.Reader, lastIndex, lastTerm uint64) {
+	// Decode into a fresh State and replace the current one. Gob does not
+	// transmit zero-valued fields, so decoding into the live struct would keep
+	// the old value of every field that is zero in the snapshot (e.g. a replica
+	// that was read-only would stay read-only after restoring a snapshot taken
+	// when the flag was clear) and the replicas would diverge.
+	var restored State
 	dec := gob.NewDecoder(reader)
-	if err := dec.Decode(h.state); nil != err {
+	if err := dec.Decode(&restored); nil != err {
 		log.Fatalf("failed to decode snapshot: %s", err)
 	}
+	h.lock.Lock()
+	*h.state = restored
+	h.lock.Unlock()
 }
 
 func (h *StateHandler) checksumRequest(index uint64) ChecksumRes {
